@@ -272,7 +272,7 @@ class C34(Prop):
                 "ext": rng.random() < 0.3, "delete": None}
 
     def gen(self, rng, tier):
-        n = {"quick": 32, "thorough": 200, "extended": 64}[tier]
+        n = {"quick": 24, "thorough": 160, "extended": 48}[tier]
         cases = []
         for _ in range(n):
             c = self._spec(rng)
@@ -505,6 +505,8 @@ class C34(Prop):
             miss = [e["@id"] for e in o["meta"].get("@graph", []) if isinstance(e, dict) and "File" in _types(e)
                     and e.get("@id") not in names]
             site = "dirmember" if miss and all("/" in m for m in miss) else "top"
+            if site == "dirmember" and dl in ("input", "output"):
+                dl = None   # deleting a top-level input/output file cannot remove a directory member from the archive
         return f"{clause}/delete={dl}/{site}"
 
     def nontrivial(self, c):
